@@ -564,3 +564,9 @@ Proof.
   split; [reflexivity|]. intros s t E. cbn [sv_addrs]. f_equal. apply R2. apply R1.
   unfold r0. cbn [rs_addrs]. rewrite E. reflexivity.
 Qed.
+
+(* a line that parses as a mapping is a mapping, whatever its path contains *)
+Lemma mapping_line_wins_lemma : forall l r m ms,
+  parse_mapping_entry (remove_logging_info l) = Ok (Some m) -> parse_proc_maps r = Ok ms ->
+  parse_proc_maps (l :: r) = Ok (m :: ms).
+Proof. intros l r m ms H1 H2. cbn [parse_proc_maps]. rewrite H1, H2. reflexivity. Qed.
